@@ -117,6 +117,34 @@ def r12_3(ctx):
                'pickled either, the fallback put fails and the worker dies' % bad[0])
 
 
+def traceback_chain_pickled_whole(ctx, rule):
+    """Traceback.__reduce__ hands the pickler the object's own state (its __dict__, or every attribute by name), so the
+    link to the next entry travels as the object it is -- including the end-of-chain marker, which is not a
+    Traceback.  A re-derived, type-filtered list of links drops the marker."""
+    ctx.rule(rule, 'the pickled form of a traceback entry carries its own attributes, tb_next included, as they are',
+             floor=1)
+    m = ctx.model
+    ci = m.cls('einfo:Traceback')
+    rd = ci.methods.get('__reduce__')
+    init = ci.methods['__init__']
+    attrs = {ast.unparse(t).split('.', 1)[1] for (dn, t, v) in q.assigns(init, lambda t: t.startswith('self.'))}
+    if rd is None:
+        ctx.ob(rule, 'Traceback:default-pickling', True, init, None, 'no __reduce__: the instance __dict__ is pickled')
+        return
+    rets = [r for r in walk_own(rd.node) if isinstance(r, ast.Return) and r.value is not None]
+    q.need(rets, 'Traceback.__reduce__ returns nothing')
+    for r in rets:
+        txt = ast.unparse(r.value)
+        named = {x.attr for x in ast.walk(r.value) if isinstance(x, ast.Attribute) and isinstance(x.value, ast.Name)
+                 and x.value.id == 'self'}
+        ok = 'self.__dict__' in txt or attrs <= named
+        ctx.ob(rule, 'Traceback.__reduce__:state-is-the-objects-own', ok, rd, r,
+               'returns self.__dict__ / every attribute by name' if ok else
+               'the state is rebuilt from a walk over the chain instead of the object\'s own attributes (%s not '
+               'handed over as they are): what the walk filters out -- the truncation marker at the end of a deep '
+               'traceback -- is lost on every round trip' % sorted(attrs - named))
+
+
 def task_failure_record(ctx, rule):
     """The record of a task's own exception is made in the handler of the task call from the exception being handled,
     whole: ExceptionInfo() (= sys.exc_info()), or an explicit triple whose traceback is the exception's full
@@ -247,6 +275,13 @@ def run(ctx):
     r12_4(ctx)
     r12_5(ctx)
     task_failure_record(ctx, 'R12.8')
+    traceback_chain_pickled_whole(ctx, 'R12.9')
+    # any exception a task raises reaches the caller as its record: the handler of the task call lets through only
+    # the SystemExit of the termination handler, and the result hook runs inside that try
+    from .c03 import r03_2b
+    ctx.rule('R03.2', 'every exception of the task (and of the result hook) becomes the job\'s result; only the '
+                      'termination handler\'s own SystemExit is re-raised', floor=3)
+    r03_2b(ctx, WorkloopAnchors(ctx))
     # every frame / code stand-in mirrors the very object it was made from: no stand-in is shared between two
     # different code objects through a table keyed by less than the object, or through class-level state
     from .generic import memo_key_covers_inputs, per_instance_state
